@@ -73,6 +73,35 @@ def r3(text, fired, ctx):
     return text
 
 
+R2_RX = re.compile(r'\(?\s*\b(suv_new|suv3|target)\s*\)?\s*\.\s*components\s*\[([^\]]+)\]\s*\+=\s*([^;]+);')
+
+
+def prep_su_inc_l1(bdir, fired, sub="SU_inc_l1"):
+    """Layer-1 copies of the generated kernels: R1 + R2 (target stores through SQ_ACC).  Must-match-count: in every file that
+    mentions a wrapped target, the number of `+=` statements on it, of R2 substitutions and of `;`-terminated target statements agree,
+    and no other reference to the target remains (the kernels touch their target only through the wrapper)."""
+    src = os.path.join(core.REPO, "include", "SQuIDS", "SU_inc")
+    dst = os.path.join(bdir, sub)
+    os.makedirs(dst, exist_ok=True)
+    problems = []
+    for fn in sorted(os.listdir(src)):
+        if not (fn.endswith(".txt") or fn.endswith(".h")) or fn in ("Dnumbers.txt", "Fnumbers.txt"):
+            continue
+        text = kernel(fn, fired, False) if fn != "dimension.h" else core.repo_read(os.path.join("include", "SQuIDS", "SU_inc", fn))
+        n_stmt = len(re.findall(r'\b(suv_new|suv3)\s*\)?\s*\.\s*components\s*\[', text))
+        text, n = R2_RX.subn(r'SQ_ACC(\1,\2,\3);', text)
+        if n != n_stmt:
+            raise ExtractionError("R2: %d target statements but %d substitutions in %s" % (n_stmt, n, fn))
+        if n:
+            fired["R2.acc"] = fired.get("R2.acc", 0) + n
+            rest = re.sub(r'SQ_ACC\((suv_new|suv3),', 'SQ_ACC(#,', text)
+            if re.search(r'\b(suv_new|suv3)\b', rest) and not fn.endswith("Select.txt"):
+                problems.append(fn)
+        with open(os.path.join(dst, fn), "w") as f:
+            f.write(text)
+    return dst, problems
+
+
 def prep_su_inc(bdir, fired, l2=True, sub="SU_inc_l2"):
     """rewritten copies of every generated file of /repo/include/SQuIDS/SU_inc (R1, and R3 for Layer 2)"""
     src = os.path.join(core.REPO, "include", "SQuIDS", "SU_inc")
